@@ -52,16 +52,25 @@ def generate(prop, rng, index, tier):
                 mask[0] = False
         p = {"name": "p%d" % i, "dtype": "i8" if is_int else "f8", "shape": list(shape), "values": vals, "mask": mask,
              "maskkind": mk, "fuzzy": fuzzy, "hidden": rng.choice([None, 12345.0, -7.0])}
-        if rng.random() < 0.05 and rank == 1:
+        r_odd = rng.random()
+        if r_odd < 0.05 and rank == 1:
             p["shape"] = [ncell + 1]          # an odd one: consumers that mix shapes fail legitimately
             p["values"] = vals + [vals[0]]
             p["mask"] = mask + [False]
+        elif r_odd < 0.12 and i > 0:
+            # same cells, an extra length-1 axis (a NetCDF (1, y, x) variable next to a (y, x) grid)
+            p["shape"] = ([1] + list(shape)) if rng.random() < 0.5 else (list(shape) + [1])
+        if not is_int and rng.random() < 0.08:
+            # not-a-number / infinite cells are legal numeric input ("nan", "inf" in a CSV file)
+            # (a fuzzy result can hold NaN - the clamp leaves it - but never an infinity)
+            p["values"][rng.randrange(ncell)] = "nan" if fuzzy else rng.choice(["nan", "inf", "-inf"])
         producers.append(p)
     # pseudo reference environment so that the argument generator can look at data values
     env = {}
     nf, fz = [], []
     for p in producers:
-        env[p["name"]] = eems.Res([None if m else Fraction(v) for v, m in zip(p["values"], p["mask"])], p["fuzzy"], True)
+        env[p["name"]] = eems.Res([None if (m or isinstance(v, str)) else Fraction(v)
+                                   for v, m in zip(p["values"], p["mask"])], p["fuzzy"], True)
         (fz if p["fuzzy"] else nf).append(p["name"])
     config = "netcdf" if index % 6 == 5 else "csv"
     if config == "netcdf":
@@ -210,7 +219,8 @@ def execute(sc):
         mon.install(list(program.command_library.values()))
         try:
             for p in sc["producers"]:
-                data = numpy.array(p["values"], dtype=("int64" if p["dtype"] == "i8" else "float64")).reshape(p["shape"])
+                data = numpy.array([float(v) if isinstance(v, str) else v for v in p["values"]],
+                                   dtype=("int64" if p["dtype"] == "i8" else "float64")).reshape(p["shape"])
                 if p["maskkind"] == "nomask":
                     arr = numpy.ma.array(data)
                 else:
